@@ -77,6 +77,10 @@ pub struct Ctx {
 }
 
 impl Ctx {
+    /// a throw-away context (for running a transition function outside an engine)
+    pub fn scratch() -> Ctx {
+        Ctx::new()
+    }
     fn new() -> Ctx {
         Ctx {
             transitions: 0,
@@ -231,6 +235,8 @@ pub struct Report {
     pub assumptions: Vec<String>,
     pub notes: Vec<String>,
     pub replay: Option<Replay>,
+    /// systems whose state count was confirmed by the independent stateright explorer
+    pub sr_agree: u64,
     start: Instant,
     only_system: Option<String>,
 }
@@ -296,6 +302,7 @@ impl Report {
             assumptions: Vec::new(),
             notes: Vec::new(),
             replay,
+            sr_agree: 0,
             start: Instant::now(),
             only_system: std::env::var("VERIF_SYSTEM").ok(),
         }
@@ -313,6 +320,10 @@ impl Report {
         } else {
             thorough
         }
+    }
+    /// (states, new states per depth) of the most recently run system, if any
+    pub fn last_counts(&self) -> Option<(u64, Vec<u64>)> {
+        self.systems.last().map(|s| (s.states, s.depth_levels.clone()))
     }
     pub fn assume(&mut self, s: &str) {
         self.assumptions.push(s.to_string());
